@@ -14,6 +14,7 @@ import EaselModel.Random.LcgTerm
 import EaselModel.Random.RollSpec
 import EaselModel.Random.SamplersTerm
 import EaselModel.Random.Deal64Small
+import EaselModel.Random.Deal64Int64
 /-! # C09 — property theorems (statements + glue only; lemmas live in Random/*.lean)
 
 Every theorem quantifies over all seeds / all stream positions / all states; none is bounded. -/
@@ -242,6 +243,33 @@ theorem rand64_deal_small_terminates {F : Type} [VOps F] {B : Int} (ff : FloatFa
   deal64Core_small_terminates ff next fuel m n hm hmn hsmall hnB hfuel s
 
 example : (1 : Int) ≤ 5 ∧ (5 : Int) ≤ 52 ∧ (52 : Int) ≤ 13 * 5 ∧ (52 : Int) ≤ 2 ^ 53 := by decide
+
+/-- the `int64_t` skeleton of `esl_rand64_Deal` (kept in `Int` by the model) never leaves the `int64_t` range: for `1 ≤ m ≤ n ≤ 2^53`
+    every value `m, n, j, qu1, threshold` take in any pass of the method-D loop, and every dealt value, is below `2^57` in magnitude
+    (`threshold = 13·m'`, `1 ≤ m' ≤ n' ≤ n`, `1 ≤ qu1 ≤ n`, `-1 ≤ j < n`), so every sum or difference of two of them that the C code
+    forms stays inside `int64_t`: no wrap-around is reachable and the `Int` model computes what the `int64_t` code computes -/
+theorem rand64_deal_int64_in_range {F : Type} [VOps F] (ff : FloatFacts F (2 ^ 53)) {σ : Type} (next : σ → UInt64 × σ) (fuel k : Nat)
+    (m n : Int) (hm : 1 ≤ m) (hmn : m ≤ n) (hnB : n ≤ 2 ^ 53) (w : UInt64) (s : σ) (st : D64St F) (s' : σ)
+    (h : d64Main next fuel k (d64Init m n w) s = some (st, s')) :
+    (∀ x ∈ [st.m, st.n, st.j, st.qu1, st.threshold], -(2 : Int) ^ 57 < x ∧ x < 2 ^ 57) ∧ (∀ a ∈ st.acc, 0 ≤ a ∧ a < n) ∧
+    st.threshold = 13 * st.m ∧ st.qu1 ≤ st.n := by
+  obtain ⟨h1, h2, h3, h4, h5, h6, h7, h8, h9, h10⟩ := d64_state_in_range ff next fuel k m n hm hmn hnB w s st s' h
+  have hth := d64Main_threshold next fuel k _ s st s' (by rfl) h
+  have hq := (d64Main_abs ff next fuel m n hnB k _ s (d64Init_inv ff m n hm hmn hnB w) st s' h).qu1_eq
+  refine ⟨?_, h10, hth, by omega⟩
+  intro x hx
+  simp only [List.mem_cons, List.not_mem_nil, or_false] at hx
+  rcases hx with rfl | rfl | rfl | rfl | rfl <;> omega
+
+/-- and every skip accepted by the method-D loop is `0 ≤ S < qu1 ≤ n` (so `n - S - 1`, `qu1 - S`, `j + S + 1`, `-S` are in range too) -/
+theorem rand64_deal_skip_in_range {F : Type} [VOps F] {B : Int} (ff : FloatFacts F B) {σ : Type} (next : σ → UInt64 × σ) (fuel : Nat)
+    (m0 n0 : Int) (hn0 : n0 ≤ B) (st : D64St F) (hinv : StInvA B m0 n0 st) (hm2 : 2 ≤ st.m) (s : σ) (S : Int) (V1 : F) (s1 : σ)
+    (hacc : d64Accept next st.ctx st.V s fuel = some (S, V1, s1)) : 0 ≤ S ∧ S < st.qu1 ∧ st.qu1 ≤ n0 :=
+  d64_skip_in_range ff next fuel m0 n0 hn0 st hinv hm2 s S V1 s1 hacc
+
+/-- non-vacuity of `StInvA`: the initial state of every call with `1 ≤ m ≤ n ≤ B` satisfies it (here over `ℝ`) -/
+example (w : UInt64) : StInvA (2 ^ 53) 5 100 (d64Init 5 100 w : D64St ℝ) :=
+  d64Init_inv (realFloatFacts _) 5 100 (by decide) (by decide) (by decide) w
 
 /-- instantiated at the EXECUTABLE model the driver runs against the C code (`Float` = binary64, libm `exp`/`log`): whatever
     `esl_rand64_Deal`'s model returns for `1 ≤ m ≤ n ≤ 2^53` on the MT19937-64 generator in any state is `m` strictly increasing
